@@ -349,7 +349,7 @@ def sorted_unique(c, exp):
 
 # ------------------------------------------------------------------------------------------ Gallina encoding
 def case_term(c, tstart):
-    pos = coqio.lst([coqio.qlist(r) for r in c['pos']])
+    pos = coqio.lst([coqio.qlist(r) for r in c['pos']]) if c['pos'] else '(@nil (list Q))'
     w = 'None' if c['weights'] is None else f'(Some {coqio.qlist(c["weights"])})'
     return '(' + coqio.tup([coqio.z(c['nthread']), coqio.z(c['np']), coqio.q(c['box']), coqio.z(c['coord']),
                             coqio.zlist(tstart), pos, w, coqio.b(c['sort'])]) + ' : case)'
